@@ -61,6 +61,34 @@ pub fn hostile_value(rng: &mut Rng, key: &str, kind: &str) -> String {
     if key == "grids" && rng.chance(0.8) {
         return rng.pick(&GRID_VALUES).to_string();
     }
+    if (kind == "text" || kind == "texts") && rng.chance(0.25) {
+        // short words with a multi-byte character at every byte offset (fixed-width slicing of
+        // user text: descriptors, unit names, ...)
+        const WORDS8: [&str; 8] = ["neuf_deg", "enuf", "neut_rad", "deg", "km", "us-ft", "position_vector", "wsdp_gon"];
+        let base: &str = WORDS8[rng.below(WORDS8.len())];
+        let mut s: Vec<char> = base.chars().collect();
+        for _ in 0..1 + rng.below(2) {
+            let at = rng.below(s.len() + 1);
+            let ch = *rng.pick(&['é', '€', '𝐑', '°', 'ß']);
+            if rng.chance(0.5) && at < s.len() {
+                s[at] = ch;
+            } else {
+                s.insert(at, ch);
+            }
+        }
+        if rng.chance(0.5) {
+            // bring the byte length back to that of a well-formed word
+            while s.iter().map(|c| c.len_utf8()).sum::<usize>() > base.len() && s.len() > 1 {
+                let at = rng.below(s.len());
+                if s[at].is_ascii() {
+                    s.remove(at);
+                } else if s.iter().all(|c| !c.is_ascii()) {
+                    break;
+                }
+            }
+        }
+        return s.into_iter().collect();
+    }
     match rng.below(10) {
         0..=4 => rng.pick(&HOSTILE_VALUES).to_string(),
         5 => format!("{}", rng.hostile_f64()),
